@@ -1339,12 +1339,18 @@ func convertDateFormat(format string) string {
 		"s": "05", // Seconds with leading zeros
 	}
 
-	result := format
-	for phpFormat, goFormat := range replacements {
-		result = strings.ReplaceAll(result, phpFormat, goFormat)
+	// Translate letter by letter in one left-to-right pass, so that the output of one
+	// replacement is never translated again and the result does not depend on map order
+	var result strings.Builder
+	for i := 0; i < len(format); i++ {
+		if goFormat, ok := replacements[format[i:i+1]]; ok {
+			result.WriteString(goFormat)
+		} else {
+			result.WriteByte(format[i])
+		}
 	}
 
-	return result
+	return result.String()
 }
 
 // Additional filter implementations
